@@ -22,6 +22,18 @@ var histBases = []string{
 	"tee(io[atomic],lazy(obs[atomic]))",
 }
 
+// bases with a first-only sampler (first=1, thereafter=0) over an AtomicLevel
+// core, next to a tee branch that keeps the level enabled so that the sampler's
+// Check is reached while its own core disables the level. Every log symbol uses
+// one message and one timestamp, so all calls at a level share one budget; the
+// reference counts an entry against it only if the sampler's wrapped core
+// enables the level at that moment. Each family costs a 458 KB counter table,
+// hence the smaller alphabet.
+var histSamplerBases = []string{
+	"tee(obs[debug],once(obs[atomic]))",
+	"tee(obs[debug],hooks(once(io[atomic])))",
+}
+
 const (
 	jParent = iota
 	jWith
@@ -192,17 +204,55 @@ func partHistories(rp *reporter, thorough bool) *histStats {
 		rule = fmt.Sprintf("all sequences of length 3 over {SetLevel(l): 7 named levels + InvalidLevel} + {log at each of the 7 named levels and -2, invalid, 127 from each of %d family members (parent, With child, Named child, Sugar, IncreaseLevel(warn) child, WithLazy child)}, and all sequences of length 4 with log levels {debug, warn, fatal}", nFamily)
 	}
 	rule += fmt.Sprintf(", each replayed on a fresh family built on each of %d base cores %v from each of the 8 start values of the AtomicLevel; every call is compared with the reference evaluator (leaves, hooks, marshaler, sinks) and after construction (once per first symbol) and after every SetLevel every member's Enabled (12 boundary levels) and Level are compared; states = distinct (base, start value, current value) reached, transitions = steps executed", len(histBases), histBases)
+	var sbases []*node
+	for _, s := range histSamplerBases {
+		n, err := parseTree(s)
+		if err != nil {
+			ev.ToolError("history base %q: %v", s, err)
+		}
+		sbases = append(sbases, n)
+	}
+	sstates := []int8{lDebug, lInfo, lError, lInvalid}
+	salpha := func() []sym {
+		var a []sym
+		for _, l := range sstates {
+			a = append(a, sym{Set: true, Lvl: l})
+		}
+		for _, l := range []int8{lDebug, lInfo, lError} {
+			for _, j := range []int{jParent, jWith, jIncr} {
+				a = append(a, sym{Lvl: l, Logger: j})
+			}
+		}
+		return a
+	}()
+	sdepths := []int{3}
+	if thorough {
+		sdepths = []int{3, 4}
+	}
+	rule += fmt.Sprintf("; and all sequences of length %v over {SetLevel: debug, info, error, invalid} + {log at debug, info, error from parent, With child, IncreaseLevel(warn) child} on each of the first-only-sampler bases %v from each of those 4 start values (one message and one timestamp, so one sampling budget per level; the reference spends budget only on entries the sampler's wrapped core enables at that moment)", sdepths, histSamplerBases)
 	total := &histStats{rule: rule}
 	states := map[hstate]struct{}{}
 	var mu sync.Mutex
-	for pi, pl := range plans {
-		pi, pl := pi, pl
+	type job struct {
+		bases  []*node
+		starts []int8
+		pl     plan
+	}
+	var jobs []job
+	for _, pl := range plans {
+		jobs = append(jobs, job{bases, states8, pl})
+	}
+	for _, d := range sdepths {
+		jobs = append(jobs, job{sbases, sstates, plan{d, salpha}})
+	}
+	for pi, jb := range jobs {
+		pi, pl, bases, starts := pi, jb.pl, jb.bases, jb.starts
 		na := len(pl.alpha)
-		nsh := len(bases) * len(states8) * na
+		nsh := len(bases) * len(starts) * na
 		par.For(nsh, func(sh int) {
 			a0 := sh % na
-			s0 := states8[(sh/na)%len(states8)]
-			base := bases[sh/na/len(states8)]
+			s0 := starts[(sh/na)%len(starts)]
+			base := bases[sh/na/len(starts)]
 			st := &histStats{}
 			local := map[hstate]struct{}{}
 			first := true
